@@ -557,8 +557,12 @@ impl<T: RealNumber> DecisionTreeClassifier<T> {
                     || gain > self.nodes[visitor.node].split_score.unwrap()
                 {
                     self.nodes[visitor.node].split_feature = j;
+                    // the midpoint of two adjacent floats can round up to the upper one: keep the threshold below it,
+                    // so that the rows counted on the false side are also routed there
+                    let upper = visitor.x.get(*i, j);
+                    let mid = (upper + prevx) / T::two();
                     self.nodes[visitor.node].split_value =
-                        Option::Some((visitor.x.get(*i, j) + prevx) / T::two());
+                        Option::Some(if mid < upper { mid } else { prevx });
                     self.nodes[visitor.node].split_score = Option::Some(gain);
                     visitor.true_child_output = true_label;
                     visitor.false_child_output = false_label;
